@@ -298,6 +298,7 @@ CHECKS = {
             {"pkg": "v2", "entries": ["VerifC01Deep"], "params": {"DEPTH": 7}},
             {"pkg": "v2", "entries": ["VerifC01Deep"], "params": {"DEPTH": 3, "CHAINKINDS": 2}},
             {"pkg": "v2", "entries": ["VerifC01Seq"], "params": {"N": 3}},
+            {"pkg": "v2", "entries": ["VerifC01Kinds"], "params": {"N": 2, "OPTS": 1}},
         ],
         "thorough": [
             {"pkg": "v2", "entries": ["VerifC01Flat"], "params": {"N": 3, "CLONE": 1}},
@@ -310,6 +311,7 @@ CHECKS = {
             {"pkg": "v2", "entries": ["VerifC01Deep"], "params": {"DEPTH": 5, "CHAINKINDS": 2}},
             {"pkg": "v2", "entries": ["VerifC01Seq"], "params": {"N": 3, "OPTS": 0x17}},
             {"pkg": "v2", "entries": ["VerifC01Nest"], "params": {"N": 3, "OPTS": 1, "WRAPS": 1}},
+            {"pkg": "v2", "entries": ["VerifC01Kinds"], "params": {"N": 2, "OPTS": 7}},
         ],
         "covers": ["c01.flat.none", "c01.flat.set", "c01.flat.multiset", "c01.flat.merge", "c01.flat.set+merge", "c01.flat.multiset+merge",
                    "c01.obj.none", "c01.obj.merge", "c01.keyed.setkeys", "c01.void.none", "c01.mixed.set", "c01.nest.none", "c01.nest.multiset", "c01.deep.none"],
